@@ -10,7 +10,7 @@ ROOT = os.path.dirname(os.path.dirname(os.path.abspath(__file__)))
 CHECKS = {
  "C01": dict(cat="translation_validation", engine="E1+E4",
    technique="exhaustive enumeration of blocks x operand states on the real emitter, interpreter as oracle (bounded exhaustive differential execution)",
-   text="Every defined opcode encoding is translated by the real emitter and executed as x86-64 code next to interpreter::run_code_block from the same state: complete A x operand x F spaces for 8-bit forms, all 65536 pointer values for memory forms, all ordered pairs of instructions, every terminator kind, ROM placements incl. the banked boundary, and positions behind NOP prefixes; registers, status, the ordered bus-write trace and a digest of all memory must agree and the worker process must survive. Repeated for all single-instruction blocks x pointer-region vectors in a hooks-off build with the repository's release settings under four host-register states at block entry.",
+   text="Every defined opcode encoding is translated by the real emitter and executed as x86-64 code next to interpreter::run_code_block from the same state: complete A x operand x F spaces for 8-bit forms, all 65536 pointer values for memory forms, all ordered pairs of instructions, every terminator kind, ROM placements incl. the banked boundary, and positions behind NOP prefixes; registers, status, the ordered bus-write trace and a digest of all memory must agree and the worker process must survive. Repeated for all single-instruction blocks x pointer-region vectors in a hooks-off build with the repository's release settings under four host-register states at block entry. In the jit build the same bytes are also run by Core::run_code_block from ROM (translated) and from work RAM (interpreted) for ten status-producing blocks x three master-enable states x five request patterns.",
    note="Interpreter is the oracle (itself judged by C05/C06); translated code runs in forked workers; blocks longer than 3 instructions are covered by template representatives and selected long blocks only.", ref="5/C01"),
  "C02": dict(cat="translation_validation", engine="E1+E4",
    technique="exhaustive enumeration of opcode x flag state (both branch outcomes) and block sums on the real emitter vs interpreter",
@@ -18,11 +18,11 @@ CHECKS = {
    note="Cycle truth of the interpreter itself is C06's business (independent SM83 table).", ref="5/C02"),
  "C03": dict(cat="model_checking", engine="E2a+E3",
    technique="depth-bounded exhaustive enumeration of block-execution/bank-write histories on the real Core in three configurations (warm cache, cache emptied every step, interpreter build)",
-   text="All event histories up to the stated depth over run(addr)/bank-register-write events on multi-bank MBC1 and MBC3 ROM files whose banks differ at the same addresses; per-step state digests of the three configurations must agree.",
+   text="All event histories up to the stated depth over run(addr)/bank-register-write events on multi-bank MBC1 and MBC3 ROM files whose banks differ at the same addresses; per-step state digests of the three configurations must agree. Events include bank switches performed from work RAM and through the bus between blocks, a block on the last address of the switchable bank, a fixed-bank block that ends with an instruction straddling 0x4000, and small images on which bank 0 appears in the switchable window.",
    note="History depth is the bound; banks and addresses are a fixed small alphabet chosen so that every bank holds different code.", ref="5/C03"),
  "C04": dict(cat="translation_validation", engine="E3",
    technique="exhaustive enumeration of generated multi-block programs (fragment sequences up to a length bound) run in jit and non-jit builds, per-step state digests compared",
-   text="Every program over the fragment alphabet up to the stated length is assembled into a real ROM file and stepped block by block in both build configurations; registers, memory, IF/IE, timer, LCD, frame buffers, DMA, controller state and serial output must agree after every step. Plus 48 long-running pressure programs (bank orders x 5..12 entry points per bank into a 12 KiB sled) that empty the 8 MiB translation area several times each.",
+   text="Every program over the fragment alphabet up to the stated length is assembled into a real ROM file and stepped block by block in both build configurations; registers, memory, IF/IE, timer, LCD, frame buffers, DMA, controller state and serial output must agree after every step. Plus 48 long-running pressure programs (bank orders x 5..12 entry points per bank into a 12 KiB sled) that empty the 8 MiB translation area several times each. Fragments read banked data from fixed-bank code and execute an instruction that straddles 0x3FFF/0x4000 under different banks.",
    note="Program size (fragments from a fixed alphabet) and step budget are the bounds.", ref="5/C04"),
  "C05": dict(cat="exploration", engine="E1",
    technique="exhaustive enumeration of operand/flag spaces on interpreter::run_next_op vs an independent SM83 reference",
@@ -50,31 +50,31 @@ CHECKS = {
    note="I/O read-back is judged only for the 17 registers and bits the property lists.", ref="5/C10"),
  "C11": dict(cat="fault_enumeration", engine="E1+E4",
    technique="exhaustive enumeration of header configurations x controller register states x addresses x access kinds in crash-isolated workers",
-   text="Cores built by Core::from_rom_file for every supported (type, ROM size, RAM size) combination; every address x {read, write, word read, word write} at extreme register states and every register state x region-edge addresses; any worker death is a violation. Files shorter than their header declares are offered to the real loader and every accepted one is swept with the last bank selected.",
+   text="Cores built by Core::from_rom_file for every supported (type, ROM size, RAM size) combination; every address x {read, write, word read, word write} at extreme register states and every register state x region-edge addresses; any worker death is a violation. Files shorter than their header declares are offered to the real loader and every accepted one is swept with the last bank selected. Six device states reached by register writes and elapsed time x every I/O address x all byte and word values.",
    note="Factorisation of the register-state x address product is stated in the evidence.", ref="5/C11"),
  "C12": dict(cat="model_checking", engine="E2c+E2b",
    technique="breadth-first closure of the MBC register state machine on the real bus (all 256 write values per register window) in lock-step with a reference controller",
-   text="From power-on, every reachable controller state x every write is executed on a real Core loaded from a ROM file whose banks carry their own index; visible ROM bank, bank 0 and RAM bank compared with R3 after every transition, for every supported type and several sizes.",
+   text="From power-on, every reachable controller state x every write is executed on a real Core loaded from a ROM file whose banks carry their own index; visible ROM bank, bank 0 and RAM bank compared with R3 after every transition, for every supported type and several sizes. Once per configuration the controller of the machine built by the real load path is compared with the controller the header tables give under the same register writes.",
    note="R3 is set-valued where the statement leaves room (MBC1 mode-1 upper bits on >=64 banks, MBC3 RAM-bank values 4-0xFF, disabled RAM).", ref="5/C12"),
  "C13": dict(cat="model_checking", engine="E2b",
    technique="one-step conformance of Timer from every (divider phase, TAC, TIMA, TMA) state under every action against a clock-by-clock reference, plus exhaustive batching compositions",
-   text="All 65536 phases x 8 TAC x boundary TIMA/TMA x {register writes, elapse d}; compositions of N<=10 batches compared with one batch of the same total.",
+   text="All 65536 phases x 8 TAC x boundary TIMA/TMA x {register writes, elapse d}; compositions of N<=10 batches compared with one batch of the same total. All 3-action (thorough 4-action) histories over 17 letters from 128 states; DIV/TIMA/IF through the bus with time delivered by MemoryAreas::run_clock_cycles while a DMA is in flight or the display is on, incl. batches of 65536..131076 clocks.",
    note="DIV write while the selected bit is high: both outcomes accepted (statement leaves it open).", ref="5/C13"),
  "C14": dict(cat="model_checking", engine="E2b",
    technique="stride walks covering every (frame position, batch size) pair on VideoState::run_clock_cycles against a closed-form schedule",
-   text="For every batch size and start offset the PPU is stepped across three frames; LY, mode, STAT bits and returned interrupt flags compared with R6 after every batch, for every STAT enable mask and a set of LYC values. Written STAT bytes include the read-only bits 0-2 and bit 7.",
+   text="For every batch size and start offset the PPU is stepped across three frames; LY, mode, STAT bits and returned interrupt flags compared with R6 after every batch, for every STAT enable mask and a set of LYC values. Written STAT bytes include the read-only bits 0-2 and bit 7. LY/STAT/IF through the bus with time delivered by MemoryAreas::run_clock_cycles while a DMA is in flight or the timer runs, six batch schedules.",
    note="STAT/LYC write-time requests are not judged.", ref="5/C14"),
  "C15": dict(cat="exploration", engine="E1",
    technique="factor-complete enumeration of scroll/window/object/palette parameters over structured VRAM/OAM images, real PPU frame vs reference pixel function",
-   text="Frames rendered through run_clock_cycles for all 256 values of each scroll/window coordinate, all object X/Y positions, attribute combinations, priority pairs and the ten-per-line family are compared pixel by pixel with R7. A scene family changes every single LCDC bit between consecutive frames in both directions with objects on the first and last visible line.",
+   text="Frames rendered through run_clock_cycles for all 256 values of each scroll/window coordinate, all object X/Y positions, attribute combinations, priority pairs and the ten-per-line family are compared pixel by pixel with R7. A scene family changes every single LCDC bit between consecutive frames in both directions with objects on the first and last visible line. Consecutive frames that show the same pixels in other places (one object moved / mirrored over a blank background).",
    note="VRAM/OAM contents are structured images, not all contents; documented hardware glitches (WX=166, WX<7 with fine scroll) not judged.", ref="5/C15"),
  "C16": dict(cat="model_checking", engine="E2b+E2a",
    technique="one-step conformance of the OAM DMA engine from every (progress, source page) state under every batch size/re-arm/source modification, plus depth-3 histories",
-   text="All 256 pages x 161 progress values x batch sizes; OAM, progress and the bus-write trace (exactly 0xFE00+n ascending, nothing else) compared with R8. The one-step relation is repeated with the display on and the LCD controller standing in mode 2, 3 and 0 of a visible line.",
+   text="All 256 pages x 161 progress values x batch sizes; OAM, progress and the bus-write trace (exactly 0xFE00+n ascending, nothing else) compared with R8. The one-step relation is repeated with the display on and the LCD controller standing in mode 2, 3 and 0 of a visible line. Time delivered by Core::update() with the CPU halted / stopped; the 0xFF46 write made by the interpreter executing nine store forms.",
    note="Source read through the reference bus map at copy time.", ref="5/C16"),
  "C17": dict(cat="model_checking", engine="E2b",
    technique="complete one-step transition relation of the joypad (all states x all actions) against a reference matrix model",
-   text="256 button states x 4 selections x (press/release of 8 buttons, all 256 select-write values), through the Joypad API and through IO/IF; P1 & 0x3F, request and once-only reporting compared with R8. All histories of 2 (thorough 4) actions over a 20-letter alphabet from every state, judged after every action.",
+   text="256 button states x 4 selections x (press/release of 8 buttons, all 256 select-write values), through the Joypad API and through IO/IF; P1 & 0x3F, request and once-only reporting compared with R8. All histories of 2 (thorough 4) actions over a 20-letter alphabet from every state, judged after every action. Events delivered to the IO of a real Core followed by one Core::update() with the CPU running, halted and stopped.",
    note="P1 bits 6-7 not judged.", ref="5/C17"),
  "C18": dict(cat="model_checking", engine="E2a+E3+E2E",
    technique="depth-bounded exhaustive enumeration of SB/SC write sequences compiled to ROM programs, captured fd 1 of jit/non-jit workers and of the real binary vs reference",
@@ -82,7 +82,7 @@ CHECKS = {
    note="End-to-end subset through the real executable in both feature configurations.", ref="5/C18"),
  "C19": dict(cat="fault_enumeration", engine="E1+E4+E2E",
    technique="exhaustive enumeration of checksum byte, (type, ROM-size, RAM-size) triples and file lengths on the loader functions, crash-isolated, plus the real binary",
-   text="All 256 checksum values over structured header patterns, all 2^24 type/size triples, file lengths around 0x100/0x150/declared size; accept/reject, decoded sizes and survival of a read of the last declared ROM byte.",
+   text="All 256 checksum values over structured header patterns, all 2^24 type/size triples, file lengths around 0x100/0x150/declared size; accept/reject, decoded sizes and survival of a read of the last declared ROM byte. For every accepted file the controller of the loaded machine is compared with Header::create_cart_state() under the same register writes; the end-to-end stage tells accepted from rejected files by marker bytes the file's own program sends.",
    note="Header bytes outside type/size/checksum are structured patterns (the property's 'random elsewhere' replaced by deterministic enumeration).", ref="5/C19"),
  "C20": dict(cat="exploration", engine="E1",
    technique="exhaustive enumeration of all addresses in both notations, all strings up to a length bound over a hazard alphabet, and all sequences of <=2 complete instructions",
